@@ -230,12 +230,13 @@ pub fn alphabet_stream(alpha: &[f64], len: usize, mut i: u64) -> Vec<f64> {
 pub const ALPHA2: [f64; 2] = [0.0, 1.0];
 pub const ALPHA3: [f64; 3] = [-1.0, 0.0, 2.5];
 pub const ALPHA4: [f64; 4] = [0.0, 1.0, 3.0, 7.0];
+pub const ALPHA5: [f64; 5] = [-4.0, -1.0, 0.0, 0.5, 6.0];
 
 pub fn exhaustive_plan(cx: &Ctx) -> Vec<(&'static [f64], usize)> {
     if cx.thorough() {
-        vec![(&ALPHA2[..], 16), (&ALPHA3[..], 11), (&ALPHA4[..], 9)]
+        vec![(&ALPHA2[..], 20), (&ALPHA3[..], 13), (&ALPHA4[..], 10), (&ALPHA5[..], 8)]
     } else {
-        vec![(&ALPHA2[..], 12), (&ALPHA3[..], 8), (&ALPHA4[..], 7)]
+        vec![(&ALPHA2[..], 13), (&ALPHA3[..], 9), (&ALPHA4[..], 7), (&ALPHA5[..], 6)]
     }
 }
 
@@ -267,12 +268,12 @@ pub fn run(cx: &Ctx) {
     }
     // bookkeeping: the three enumerations share one sub-check entry
     let w = cx.workers;
-    let cases = cx.by(600, 12000);
+    let cases = cx.by(3000, 30000);
     let max_len = cx.by(2000, 20000);
     cx.label("generated");
-    cx.run_pt(&P2Diff, cases, w, move || stream_strategy(max_len), "random streams of 10 kinds, length 5..=20000 (quick 2000); exhaustive alphabets: 2 values x length 16 (quick 12), 3 x 11 (8), 4 x 9 (7)");
+    cx.run_pt(&P2Diff, cases, w, move || stream_strategy(max_len), "random streams of 10 kinds, length 5..=20000 (quick 2000); exhaustive alphabets: 2 values x length 20 (quick 13), 3 x 13 (9), 4 x 10 (7), 5 x 8 (6)");
     let mono = || (0.05..=0.95f64, 50usize..10000, prop_oneof![0.001..1000.0f64, -1000.0..-0.001f64], -1e6..1e6f64, any::<bool>()).prop_map(|(p, n, a, b, decreasing)| Mono { p, n, a, b, decreasing });
-    cx.run_pt(&MonoTrack, cx.by(60, 600), w, mono, "arithmetic progressions n 50..10000, p in [0.05,0.95], both directions");
+    cx.run_pt(&MonoTrack, cx.by(300, 3000), w, mono, "arithmetic progressions n 50..10000, p in [0.05,0.95], both directions");
 }
 
 pub fn replay(check: &str, case: &serde_json::Value) -> Option<Result<(), String>> {
